@@ -21,7 +21,7 @@ RULE = ("data sets = every multiset of 4 gene archetypes out of 8 (330) over "
         "states {off, fold between floor and strict, on, on with large "
         "variance, zero-variance low, penetrance between floor and strict} "
         "on the clusters; default configuration + 1 deviation over cluster "
-        "sizes {(2,3,10,2,4,3,2),(1,2,3,10,2,2,5),(2,2,...)}, exact_penetrance, "
+        "sizes {(2,3,10,2,4,3,2),(1,2,3,10,2,2,5),(2,2,...),(10,2,3,2,2,1,5)}, exact_penetrance, "
         "n_valid {1,2,4}, gene_list, n_processors {1,2,3}, max_gb, cluster "
         "renaming that swaps every pair; p-value-mask route for every data "
         "set.  distinct_nontrivial = distinct (data set, configuration) runs "
@@ -40,6 +40,7 @@ ON = (3.0, 0.05, 1.0)
 NOISY = (3.0, 4.0, 0.6)
 FLAT = (0.5, 0.0, 0.05)        # zero variance
 HALF = (2.0, 0.05, 0.45)       # penetrance below the strict 0.5
+WILD = (14.0, 8.0, 1.0)       # far away, variance/n of order 1 or more
 ARCHETYPES = {
     'a': (OFF, OFF, OFF, ON, ON, MID, OFF),
     'b': (OFF, MID, ON, OFF, MID, ON, HALF),
@@ -49,9 +50,15 @@ ARCHETYPES = {
     'f': (FLAT, FLAT, ON, FLAT, OFF, FLAT, ON),
     'g': (ON, OFF, OFF, ON, OFF, NOISY, OFF),
     'h': (HALF, OFF, HALF, ON, OFF, ON, FLAT),
+    # only used in the extra data sets below (keeps the multiset space at
+    # 330): a far-away, high-variance state next to the one-cell cluster,
+    # for which a degenerate Welch test (n = 1) still yields a small p
+    'i': (WILD, OFF, OFF, WILD, OFF, OFF, ON),
 }
+# the one-cell cluster is first in name order in SIZES[1] (cl_b ... ) and
+# last in SIZES[3] (cl_g), next to a 10-cell cluster in both
 SIZES = [(2, 3, 10, 2, 4, 3, 2), (1, 2, 3, 10, 2, 2, 5),
-         (2, 2, 2, 2, 2, 2, 2)]
+         (2, 2, 2, 2, 2, 2, 2), (10, 2, 3, 2, 2, 1, 5)]
 TH = dict(p_th=0.01, q1_th=0.5, qdiff_th=0.7, log2_fold_th=1.0,
           q1_min_th=0.1, qdiff_min_th=0.1, log2_fold_min_th=0.8)
 NAMES = ['cl_b', 'cl_e', 'cl_a', 'cl_d', 'cl_c', 'cl_g', 'cl_f']
@@ -66,11 +73,21 @@ def bounds(tier):
 
 
 def cases(tier, seed):
-    keys = sorted(ARCHETYPES)
+    keys = sorted(k for k in ARCHETYPES if k != 'i')
     multis = list(itertools.combinations_with_replacement(keys, 4))
     step = 6
     for i in range(0, len(multis), step):
         yield {'datasets': multis[i:i + step], 'seed': seed, 'tier': tier}
+    yield {'datasets': [('i', 'a', 'b', 'g'), ('i', 'i', 'e', 'h'),
+                        ('i', 'c', 'd', 'f')], 'seed': seed, 'tier': tier}
+    # more genes than an 8-bit (and, thorough, a 16-bit) index can address,
+    # with the informative genes at both ends of the gene axis
+    for n_genes in ((300,) if tier == 'quick' else (300, 66000)):
+        for head, tail in ((('a', 'b', 'e', 'g'), ('h', 'd', 'f', 'a')),
+                           (('g', 'g', 'a', 'h'), ('b', 'e', 'a', 'g'))):
+            genes = tuple(head) + ('c',) * (n_genes - 8) + tuple(tail)
+            yield {'datasets': [genes], 'seed': seed, 'tier': tier,
+                   'wide': True}
 
 
 def write_stats(path, genes, sizes, names, seed):
@@ -302,11 +319,15 @@ def evaluate(case, scratch):
 
     default = {'sizes': 0, 'exact': False, 'n_valid': 2, 'gene_list': False,
                'n_proc': 1, 'max_gb': 10, 'rename': False}
-    alph = {'sizes': [1, 2], 'exact': [True], 'n_valid': [1, 4],
+    alph = {'sizes': [1, 2, 3], 'exact': [True], 'n_valid': [1, 4],
             'gene_list': [True], 'n_proc': [2, 3], 'max_gb': [1e-9],
             'rename': [True]}
     from mc import domains
     dbound = 1 if case['tier'] == 'quick' else 2
+    if case.get('wide'):
+        dbound = 1
+        alph = {'exact': [True], 'n_proc': [2, 3], 'sizes': [1],
+                'rename': [True]}
     for di, genes in enumerate(case['datasets']):
         base_digest = None
         for cfg, dev in domains.deviations(default, alph, dbound):
